@@ -285,7 +285,7 @@ fn obs_build(cs: &CompilerState, w: &mut dyn Write, args: &Args) -> Result<(), E
 pub enum Outcome {
     Ok,
     /// structured error: (variant, Debug text)
-    Err { variant: &'static str, text: String, filename: String, line: u32 },
+    Err { variant: &'static str, text: String, filename: String, line: u32, included_in: Option<(String, u32)> },
     Panic { file: String, line: u32, msg: String },
     /// step budget exhausted (or, with `memory`, live heap grown beyond its cap) at tick site `site`
     Hang { site: String, memory: bool },
@@ -493,14 +493,14 @@ fn run_job(job: &JobSpec, env: &WorkerEnv, sched: &Arc<Sched>, tid: usize, multi
             match r {
                 Ok(Ok(())) => Outcome::Ok,
                 Ok(Err(e)) => {
-                    let (variant, filename, line) = match &e {
-                        Error::Io(_) => ("Io", String::new(), 0),
-                        Error::Syntax { filename, line, .. } => ("Syntax", filename.clone(), *line),
-                        Error::Compiler { filename, line, .. } => ("Compiler", filename.clone(), *line),
-                        Error::Unimplemented { .. } => ("Unimplemented", String::new(), 0),
-                        Error::Configuration { .. } => ("Configuration", String::new(), 0),
+                    let (variant, filename, line, included_in) = match &e {
+                        Error::Io(_) => ("Io", String::new(), 0, None),
+                        Error::Syntax { filename, line, included_in, .. } => ("Syntax", filename.clone(), *line, included_in.clone()),
+                        Error::Compiler { filename, line, included_in, .. } => ("Compiler", filename.clone(), *line, included_in.clone()),
+                        Error::Unimplemented { .. } => ("Unimplemented", String::new(), 0, None),
+                        Error::Configuration { .. } => ("Configuration", String::new(), 0, None),
                     };
-                    Outcome::Err { variant, text: format!("{:?} // {}", e, e), filename, line }
+                    Outcome::Err { variant, text: format!("{:?} // {}", e, e), filename, line, included_in }
                 }
                 Err(payload) => {
                     if let Some(f) = payload.downcast_ref::<FuelExhausted>() {
@@ -526,11 +526,12 @@ fn run_job(job: &JobSpec, env: &WorkerEnv, sched: &Arc<Sched>, tid: usize, multi
     let builder_called = decls.is_some();
     let decls = decls.unwrap_or_default();
     let outcome = match outcome {
-        Outcome::Err { variant, text, filename, line } => Outcome::Err {
+        Outcome::Err { variant, text, filename, line, included_in } => Outcome::Err {
             variant,
             text: text.replace(&incdir, "$INC"),
             filename: filename.replace(&incdir, "$INC"),
             line,
+            included_in,
         },
         o => o,
     };
